@@ -66,6 +66,15 @@ TRUSTED_BASE = [
 ]
 
 
+def _raise_stack():
+    # CBMC recurses deeply on long unwound loops; a 8 MB stack makes it crash (status 139)
+    import resource
+    try:
+        resource.setrlimit(resource.RLIMIT_STACK, (resource.RLIM_INFINITY, resource.RLIM_INFINITY))
+    except Exception:
+        pass
+
+
 def log(*a):
     print(*a, file=sys.stderr, flush=True)
 
@@ -181,7 +190,7 @@ class Scratch:
             if not os.path.exists(p):
                 raise Undecided(f"lost anchor: source file src/{srcrel} does not exist in the tree")
             with open(p, "a") as f:
-                f.write('\n#[cfg(kani)] #[path = "%s"] mod verif_kani;\n' % os.path.join(KANI_DIR, m))
+                f.write('\n#[cfg(kani)] #[path = "%s"] pub(crate) mod verif_kani;\n' % os.path.join(KANI_DIR, m))
         with open(stamp, "w") as f:
             f.write(self.key)
 
@@ -251,7 +260,7 @@ def run_kani_group(scratch, gid, obls, tier_timeout):
         lf.flush()
         try:
             p = subprocess.run(cmd, cwd=scratch.src, env=env, stdout=lf, stderr=subprocess.STDOUT,
-                               timeout=timeout_s * 2 + 900)
+                               timeout=timeout_s * 2 + 900, preexec_fn=_raise_stack)
             rc = p.returncode
         except subprocess.TimeoutExpired:
             rc = -9
@@ -284,11 +293,11 @@ def run_kani_group(scratch, gid, obls, tier_timeout):
                                 "wall_s": wall, "log_tail": text[-2000:]}
             continue
         res = classify_kani(o, r, props.get(h, {}), errs.get(h, {}))
-        st = stats.get(h, {}).get("cbmc_stats", {})
-        res["solver_s"] = round(st.get("runtime_solver_s", 0.0) + st.get("runtime_symex_s", 0.0), 3)
-        res["sat_s"] = round(st.get("runtime_solver_s", 0.0), 3)
+        st = (stats.get(h) or {}).get("cbmc_stats") or {}
+        res["solver_s"] = round((st.get("runtime_solver_s") or 0.0) + (st.get("runtime_symex_s") or 0.0), 3)
+        res["sat_s"] = round(st.get("runtime_solver_s") or 0.0, 3)
         res["wall_s"] = round(r.get("duration_ms", 0) / 1000.0, 2)
-        res["backend"] = "kani 0.68.0 / cbmc 6.11.0 / " + stats.get(h, {}).get("configuration", {}).get("solver", "cadical")
+        res["backend"] = "kani 0.68.0 / cbmc 6.11.0 / " + ((stats.get(h) or {}).get("configuration") or {}).get("solver", "cadical")
         res["n_checks"] = len(r.get("checks", []))
         results[o["id"]] = res
     return results
